@@ -87,18 +87,19 @@ pub fn signature(c: &MultiCase) -> Option<&'static str> {
             break;
         }
     }
-    let (stale, empty) = (it.stale_reap_seen, it.empty_suspend_line_seen);
+    let flags = [
+        (bottom || it.model.bottom_loose, "bottom_alignment_shift_rows"),
+        (it.bottom_empty_frame_seen, "bottom_alignment_empty_frame_newline"),
+        (it.stale_reap_seen, "remove_then_retain_before_repaint"),
+        (it.empty_suspend_line_seen, "ordinary_empty_line_after_text_only_draw"),
+    ];
     drop(it);
-    Some(match (bottom, stale, empty) {
-        (false, false, false) => return None,
-        (true, false, false) => "bottom_alignment_shift_rows",
-        (false, true, false) => "remove_then_retain_before_repaint",
-        (false, false, true) => "ordinary_empty_line_after_text_only_draw",
-        (true, true, false) => "bottom_alignment_shift_rows|remove_then_retain_before_repaint",
-        (true, false, true) => "bottom_alignment_shift_rows|ordinary_empty_line_after_text_only_draw",
-        (false, true, true) => "remove_then_retain_before_repaint|ordinary_empty_line_after_text_only_draw",
-        (true, true, true) => "bottom_alignment_shift_rows|remove_then_retain_before_repaint|ordinary_empty_line_after_text_only_draw",
-    })
+    let names: Vec<&str> = flags.iter().filter(|f| f.0).map(|f| f.1).collect();
+    if names.is_empty() {
+        None
+    } else {
+        Some(crate::runner::intern(names.join("|")))
+    }
 }
 
 pub fn history_strategy(tier: Tier) -> BoxedStrategy<MultiCase> {
